@@ -34,4 +34,31 @@ theorem grun_eq (fs : List PFork) (evs : List GEv) :
           exact fun e => hf e.symm
         simp [proj, h1, h2, hf]
 
+theorem mem_proj {id : ForkId} {evs : List GEv} {e : Ev} (h : e ∈ proj id evs) :
+    (∃ n, e = .nodeDone n ∧ GEv.nodeDone n ∈ evs) ∨ GEv.fork id e ∈ evs := by
+  induction evs with
+  | nil => simp [proj] at h
+  | cons g r ih =>
+    cases g with
+    | nodeDone n =>
+      simp only [proj, List.mem_cons] at h
+      rcases h with rfl | h
+      · exact Or.inl ⟨n, rfl, List.mem_cons_self⟩
+      · rcases ih h with ⟨m, e1, e2⟩ | h2
+        · exact Or.inl ⟨m, e1, List.mem_cons_of_mem _ e2⟩
+        · exact Or.inr (List.mem_cons_of_mem _ h2)
+    | fork f ev =>
+      simp only [proj] at h
+      split at h
+      · rename_i hf
+        have hf' : f = id := by simpa using hf
+        rcases List.mem_cons.mp h with rfl | h
+        · exact Or.inr (hf' ▸ List.mem_cons_self)
+        · rcases ih h with ⟨m, e1, e2⟩ | h2
+          · exact Or.inl ⟨m, e1, List.mem_cons_of_mem _ e2⟩
+          · exact Or.inr (List.mem_cons_of_mem _ h2)
+      · rcases ih h with ⟨m, e1, e2⟩ | h2
+        · exact Or.inl ⟨m, e1, List.mem_cons_of_mem _ e2⟩
+        · exact Or.inr (List.mem_cons_of_mem _ h2)
+
 end Martian.Vdr
